@@ -2938,14 +2938,18 @@ class UnregisteredAttr(ParametrizedAttribute, BuiltinAttribute, ABC):
     def print_builtin(self, printer: Printer):
         # Do not print `!` or `#` for unregistered builtin attributes
         printer.print_string("!" if self.is_type.data else "#")
+        # The body is the verbatim source text: a line break in it must not be
+        # followed by the printer's indentation, which would become part of the
+        # body on the next parse.
         if self.is_opaque.data:
             printer.print_string(
-                f"{self.attr_name.data.replace('.', '<', 1)}{self.value.data}>"
+                f"{self.attr_name.data.replace('.', '<', 1)}{self.value.data}>",
+                indent=0,
             )
         else:
             printer.print_string(self.attr_name.data)
             if self.value.data:
-                printer.print_string(f"<{self.value.data}>")
+                printer.print_string(f"<{self.value.data}>", indent=0)
 
     @classmethod
     @cache
